@@ -11,6 +11,9 @@ there (assertion LOST-WAKEUP).
   h1_slot      : waiter { register; loop(<=R) { if cond: break; wait_while(|| !cond) } }  ||  notifier A { cond = 1; notify }
                  || notifier B { notify }           (B = a stale/spurious notification, at any point incl. before registration)
   h2_two_conds : the waiter needs two publications (two notifiers, each publishes its flag then notifies)
+  h7_validate_notifies_parked_finality : (= C02/wake_VG) the real next -> validate with a ghost finality-coordinator pass (finalise head, examine the new
+                 head, park if it is not ready) injected atomically at every visible operation: the validation that publishes head k as
+                 Unconfirmed notifies a coordinator that parked on k (validate reads the finality index only after publishing and unlocking).
   h3_cancel    : waiter uses the real commit-loop predicate (!is_aborted() && commit_idx >= finality_idx) on a real
                  Scheduler; notifiers: real Scheduler::cancel(), and publish_finality + commit_wait.notify()
 """
@@ -310,6 +313,12 @@ def specs(tier):
              desc="producer side on the real run_finality_loop: every publication is followed by a commit notification before the loop sleeps or returns "
                   "(every batch shape; ghost candidate lock, ghost wait = environment step)", bounds={"n": 3, "sleeps": 3}),
     ]
+    if tier != "experimental":
+        import c02
+        for s_ in c02.specs(tier):
+            if s_.name == "wake_VG_n3":
+                s_.name = "h7_validate_notifies_parked_finality"
+                out.append(s_)
     if tier == "experimental":
         out.append(Spec("h4_finality_commit_n2", build_h4(2), cfg=h4_cfg(2, False), unwind=6, timeout=14000,
                         desc="real run_finality_loop || real run_commit_loop (ghost commit, ghost candidate lock) over 2 validated transactions: "
